@@ -566,7 +566,20 @@ func (g *schemaGenerator) generateType(t *schemas.Type, scope nameScope) (codege
 			return ncg, nil
 		}
 
+		g.addImportsOfPointedNamedType(cg)
+
 		return cg, nil
+	}
+}
+
+// addImportsOfPointedNamedType registers the imports of a nullable format type such as *time.Time.
+func (g *schemaGenerator) addImportsOfPointedNamedType(t codegen.Type) {
+	if pt, ok := t.(*codegen.PointerType); ok {
+		if nt, ok := pt.Type.(codegen.NamedType); ok && nt.Package != nil {
+			for _, imprt := range nt.Package.Imports {
+				g.output.file.Package.AddImport(imprt.QualifiedName, "")
+			}
+		}
 	}
 }
 
@@ -1013,6 +1026,8 @@ func (g *schemaGenerator) generateTypeInline(t *schemas.Type, scope nameScope) (
 
 				return ncg, nil
 			}
+
+			g.addImportsOfPointedNamedType(cg)
 
 			return cg, nil
 		}
